@@ -188,7 +188,7 @@ pub fn shape_strategy(p: &GenParams) -> BoxedStrategy<Shape> {
         prop::option::weighted(
             0.35,
             (
-                prop::collection::vec((0u8..2, any::<u16>()), 1..=4),
+                prop::collection::vec((prop_oneof![3 => 0u8..2, 1 => 2u8..=8], any::<u16>()), 1..=4),
                 prop_oneof![2 => Just(0u8), 3 => 1u8..=4, 1 => Just(255u8), 1 => any::<u8>()],
                 any::<bool>(),
             )
@@ -334,8 +334,11 @@ pub fn realize<B: FA>(s: &Shape, cell_budget: usize) -> Instance {
     }
     let aux_spec = s.aux.as_ref().filter(|_| !s.degenerate && width < 255);
     if let Some(a) = aux_spec {
-        if a.cols.iter().any(|(k, _)| *k == 1) {
-            max_eval_degree = max_eval_degree.max(2 * (n - 1));
+        // aux column kind k has degree k + 1, which needs blowup >= next_pow2(k): cap k accordingly
+        for (k, _) in a.cols.iter() {
+            let kk = (*k as usize).min(blowup);
+            ce_blowup = ce_blowup.max(min_blowup(kk + 1, 0));
+            max_eval_degree = max_eval_degree.max((kk + 1) * (n - 1));
         }
     }
     let max_by_degree = (n * ce_blowup - 1) + n - max_eval_degree;
@@ -352,7 +355,7 @@ pub fn realize<B: FA>(s: &Shape, cell_budget: usize) -> Instance {
         let lagrange = a.lagrange && room >= 2;
         let ncols = a.cols.len().min(room - lagrange as usize).max(1);
         AuxDesc {
-            cols: a.cols.iter().take(ncols).map(|(k, c)| (*k, pick_index(*c, width))).collect(),
+            cols: a.cols.iter().take(ncols).map(|(k, c)| ((*k as usize).min(blowup) as u8, pick_index(*c, width))).collect(),
             num_rands: a.num_rands as usize,
             lagrange,
         }
